@@ -168,7 +168,7 @@ def finish (seed : Bytes) (a : Outcome Addr) (port : Bool → POut Nat) (ident :
       | .ok i => .ok ⟨seed, a.bytes, p, i⟩
 
 /-- station: `NewRegistrationC2SWrapper` / `NewRegistration` (no registrar overrides) followed by the
-transport's `GetIdentifier`.  DTLS identifiers are compared on the station side only. -/
+transport's `GetIdentifier`. -/
 def stationDerive (c : Crypto) (k : Consts) (cfg : Cfg) (r : Reg) : Prog DOut :=
   match genSharedKeys c r.ver r.secret with
   | .err e => .done (.errKeys e)
@@ -177,9 +177,7 @@ def stationDerive (c : Crypto) (k : Consts) (cfg : Cfg) (r : Reg) : Prog DOut :=
     let a ← stationSelect c.hk cfg keys.seed r.gen r.ver r.v6
     return finish keys.seed a
       (fun rp => stationPort k (portStream c keys.seed) c.hk.lim r.transport r.ver r.params rp)
-      (match r.transport with
-        | .dtls => .ok []
-        | t => stationIdentifier c t r.secret keys)
+      (stationIdentifier c r.transport r.secret keys)
 
 /-- the client of library version `r.ver` (published derivation): keys, then the selector of its
 generation (frozen version 0 / 1 clients, `SelectPhantom` from version 2), the port rule, the tag. -/
